@@ -27,9 +27,17 @@ import (
 
 const (
 	c19WalletPass = "c19"
-	c19NTx        = 12 // size of the tx pool: 0..7 plain, 8..9 short-lived, 10..11 a Conflicts pair
-	c19PlainTx    = 8
+	c19NTx        = 20 // size of the tx pool: 0..7 and 12..19 plain, 8..9 short-lived, 10..11 a Conflicts pair
 )
+
+// c19IsPlain: a transfer that stays valid for the whole run and conflicts with nothing.
+func c19IsPlain(k int) bool { return k < 8 || (k >= 12 && k < c19NTx) }
+
+type c19TxMeta struct {
+	idx    int
+	size   int
+	sysFee int64
+}
 
 type c19World struct {
 	n       int
@@ -37,6 +45,7 @@ type c19World struct {
 	boot    [][]byte // bootstrap blocks (heights 1, 2)
 	txs     [][]byte // valid transactions (built against the state after bootstrap)
 	txHash  []util.Uint256
+	txMeta  map[util.Uint256]c19TxMeta
 	wallets []string // wallet file of validator node j (key ck.CommitteeKeys[j])
 	baseH   uint32   // chain height after bootstrap
 	// snapshot of the persisted bootstrap state: every node starts from a copy (as a node restarted over its DB)
@@ -185,6 +194,10 @@ func c19GetWorld(n int, srih bool) (*c19World, error) {
 		}
 		w.txs = append(w.txs, raw)
 		w.txHash = append(w.txHash, dec.Hash())
+		if w.txMeta == nil {
+			w.txMeta = map[util.Uint256]c19TxMeta{}
+		}
+		w.txMeta[dec.Hash()] = c19TxMeta{idx: k, size: dec.Size(), sysFee: dec.SystemFee}
 	}
 	if err := bc.VerifPersist(); err != nil {
 		return nil, err
